@@ -165,3 +165,23 @@ class P(Prop):
         peps = case["peps"]
         for i in range(len(peps)):
             yield {"peps": peps[:i] + peps[i + 1 :], "level": case["level"]}
+
+
+# ---- pipeline-level cases: the value the CALLERS obtain (scoring_strategy.collect_peptide_scores_per_protein stores
+# the cutoff on the strategy object; the rescue pass reports with it) against the composed Lean model and against an
+# independent recomputation from the peptides handed to the second competition
+import pipeline as _pl  # noqa: E402
+
+_BaseP = P
+
+
+class P(_pl.PipelineMixin, _BaseP):
+    pipeline_share = 0.04
+    pipeline_oracles = ("c17",)
+
+    def gen_case(self, rng, tier):
+        if rng.random() < self.pipeline_share:
+            c = _pl.gen_case(rng, tier, methods=[m for m in _pl.method_names() if _pl.method_fields(m)["grouping"].startswith("rescued")])
+            c["psm"] = rat(rng.choice([0.01, 0.05, 0.0011, 0.2]))
+            return c
+        return _BaseP.gen_case(self, rng, tier)
